@@ -83,7 +83,7 @@ Nums == << Nan, Inf(1), Inf(-1), Zero(1), Zero(-1), NInt(1), NInt(-1), NInt(2), 
            NamedNum("halfpred"), NamedNum("-halfpred"), NamedNum("odd52"), NamedNum("-odd52") >>
 NumOps == [i \in 1..Len(Nums) |-> NumOp(Nums[i])]
 StrOp(s) == [val |-> StrV(s), e |-> Lit(s)]
-CmpStrs == << <<>>, <<"1", "0">>, <<"9">>, <<"sp", "1", "0", "sp">>, <<"a", "b", "c">>, <<"1", ".", "5">>, <<"t", "r", "u", "e">>,
+CmpStrs == << <<>>, <<"1", "0">>, <<"1">>, <<"9">>, <<"sp", "1", "0", "sp">>, <<"a", "b", "c">>, <<"1", ".", "5">>, <<"t", "r", "u", "e">>,
               <<"-", "2">>, <<"0">>, <<"N", "a", "N">>, <<"1", "e", "1">>, <<"+", "9">> >>
 StrOps == [i \in 1..Len(CmpStrs) |-> StrOp(CmpStrs[i])]
 BoolOps == << [val |-> BoolV(TRUE), e |-> Call(<<"t","r","u","e">>, <<>>)], [val |-> BoolV(FALSE), e |-> Call(<<"f","a","l","s","e">>, <<>>)] >>
